@@ -197,7 +197,7 @@ def _dotted(node):
 class Program(object):
     PKG = 'pgpy'
 
-    def __init__(self, root='/repo', overlay=None):
+    def __init__(self, root='/repo', overlay=None, canon=True):
         """overlay: relpath -> source text replacing the file on disk (used by the sensitivity self-test; in memory only)."""
         self.root = root
         self.overlay = overlay or {}
@@ -235,6 +235,10 @@ class Program(object):
         for m in self.modules.values():
             for c in m.classes.values():
                 c.mro()
+        self.canon_stats = None
+        if canon:
+            from .canon import canonicalise
+            canonicalise(self)
 
     # ------------------------------------------------------------------ indexing
     def _abs_module(self, m, level, name):
